@@ -126,6 +126,7 @@ Emit == Finished => PrintT(<<"REPLAY", ToJson(hist)>>)
 View == <<vars, hist, needProbe>>
 MCNVals3 == {-1, 0, 1, 2}
 MCNValsPlain == {-1}
+MCNValsLong == {-1, 1, 3}
 MCNValsC == {0, 1, 2}
 MCFuncSeq1 == <<"f1">>
 MCSites1 == {1}
